@@ -27,6 +27,13 @@ EXHAUSTIVE = {"quick": True, "thorough": True}
 EXHAUSTIVE_NOTE = ("exhaustive over the decision table 3 joins x 9 expect values x 3 left shapes x 3 right shapes x "
                    "6 key realisations (1458 cases); arbitrary tables are the theorems' job, the random stream samples them")
 DESIGN_REF = "DESIGN.md section 4, C09 / C10 / C11"
+LEVEL_TEXT = ("theorems (all tables): for a valid expect and an accepted key specification each of the three joins "
+              "raises SerifValueError iff a required uniqueness fails; any other expect value is rejected first; when "
+              "the expectation holds the call equals the 'many_to_many' call")
+LEVEL_NOTE = ("Trusted: Coq 8.16.1 kernel and vm_compute; the hand-written model Model/Join.v with each function's own "
+              "expect tuples (tied to table.py by the correspondence check: the exhaustive decision table and random "
+              "pairs); expect values are modelled as strings (a non-string value is shipped as a non-member string); "
+              "the harness.")
 
 INVALID = ["bogus", "", "ONE_TO_ONE", ["i", 3], ["N"]]
 EXPECT_VALUES = J.EXPECTS + [None] + INVALID[:4]
@@ -75,7 +82,7 @@ def streams(rng, tier):
     table = [table_case(h, e, real, ls, rs) for h in ("inner", "left", "full") for e in EXPECT_VALUES
              for real in REAL for ls in SHAPES for rs in SHAPES]
     rand = []
-    for _ in range(600 if tier == "quick" else 4000):
+    for _ in range(1200 if tier == "quick" else 8000):
         c = J.gen_pair(rng)
         which = rng.random()                                 # random tables rarely have unique keys: help them
         if which < 0.3:
